@@ -25,9 +25,10 @@ const (
 	vfDup
 	vfReorder // delayed past the next datagrams
 	vfLate    // delayed past the retransmission timeout
+	vfRaceRto // arrives at the instant the receiving end's earliest retransmission timer expires (just before it is serviced)
 )
 
-var vfFateNames = []string{"deliver", "drop", "dup", "reorder", "late"}
+var vfFateNames = []string{"deliver", "drop", "dup", "reorder", "late", "race-rto"}
 
 type vfSimCfg struct {
 	Mode       string // "session": flush after Send / on the interval flush returns / from Input; "update": Update at Check()
@@ -55,6 +56,7 @@ type vfSimCfg struct {
 	Outages      [][2]uint32 // when set, the outage is an environment choice among these
 	Trace        bool
 	CleanPath    bool   // C18: assert that every data sn is transmitted exactly once
+	FateFrom     int    // fates are enumerated for datagrams [FateFrom, FateFrom+K): exploration from a warmed-up connection
 	FixedFates   []int  // replay these fates instead of choosing (differential runs)
 	WriteGapMs   uint32 // the i-th write of end A becomes available at i*WriteGapMs (application-limited sender)
 }
@@ -73,6 +75,9 @@ func (h vfEvHeap) Len() int { return len(h) }
 func (h vfEvHeap) Less(i, j int) bool {
 	if h[i].t != h[j].t {
 		return h[i].t < h[j].t
+	}
+	if (h[i].kind == 0) != (h[j].kind == 0) {
+		return h[i].kind == 0 // at one instant, arrivals are processed before timers
 	}
 	return h[i].seq < h[j].seq
 }
@@ -268,7 +273,7 @@ func (s *vfSim) onOutput(en *vfEnd, buf []byte, size int) {
 		if idx < len(s.cfg.FixedFates) {
 			fate = s.cfg.FixedFates[idx]
 		}
-	} else if idx < s.cfg.K && len(s.cfg.Fates) > 1 {
+	} else if idx >= s.cfg.FateFrom && idx < s.cfg.FateFrom+s.cfg.K && len(s.cfg.Fates) > 1 {
 		fate = s.cfg.Fates[vrt.Choose(len(s.cfg.Fates), "fate")]
 	}
 	if s.cfg.Outage[1] > s.cfg.Outage[0] && s.now >= s.cfg.Outage[0] && s.now < s.cfg.Outage[1] {
@@ -296,6 +301,21 @@ func (s *vfSim) onOutput(en *vfEnd, buf []byte, size int) {
 		s.push(&vfEvent{t: s.now + d + 35, kind: 0, end: to, data: data})
 	case vfLate:
 		s.push(&vfEvent{t: s.now + d + 450, kind: 0, end: to, data: data})
+	case vfRaceRto:
+		at := s.now + d
+		first := true
+		var earliest uint32
+		for sg := range s.e[to].k.snd_buf.ForEach {
+			if sg.acked == 0 && sg.xmit > 0 {
+				if rel := sg.resendts - s.cfg.Clk0; first || int32(rel-earliest) < 0 {
+					earliest, first = rel, false
+				}
+			}
+		}
+		if !first && int32(earliest-at) > 0 && earliest-at < 70000 {
+			at = earliest
+		}
+		s.push(&vfEvent{t: at, kind: 0, end: to, data: data})
 	}
 }
 
@@ -317,6 +337,10 @@ func (s *vfSim) pre(en *vfEnd) vfSnap {
 // is updated by the packet before the internal flush, so the post-call values are the ones flush used).
 func (s *vfSim) post(en *vfEnd, p vfSnap, isInput bool, what string) {
 	k := en.k
+	if s.cfg.Trace {
+		s.tracef("  after %s end%d: una=%d nxt=%d cwnd=%d->%d ssthresh=%d incr=%d rmt_wnd=%d rto=%d queue=%d new=%v retrans=%d", what, en.id, k.snd_una-s.cfg.Sn0, k.snd_nxt-s.cfg.Sn0,
+			p.cwnd, k.cwnd, k.ssthresh, k.incr, k.rmt_wnd, k.rx_rto, k.snd_queue.Len(), s.newSn, s.retrans)
+	}
 	// --- receive side (C04)
 	if k.rcv_queue.Len() > int(k.rcv_wnd) {
 		s.bad("C04:delivery-queue-exceeds-window", "end %d holds %d in-order segments, receive window %d (%s)", en.id, k.rcv_queue.Len(), k.rcv_wnd, what)
@@ -351,19 +375,20 @@ func (s *vfSim) post(en *vfEnd, p vfSnap, isInput bool, what string) {
 		if isInput {
 			una, rmt, cw = k.snd_una, k.rmt_wnd, k.cwnd
 			if s.retrans > 0 || lost > 0 {
-				// flush rewrote cwnd after emitting: only the growth bound is known
-				cw = max(p.cwnd+1, k.cwnd)
+				// the flush inside Input rewrote cwnd after emitting (and the value it used cannot be observed:
+				// congestion avoidance may have grown it by more than one on this very packet): the congestion
+				// component is not checked for this call, the two window components still are
 				exact = false
 			}
 		}
 		lim := min(k.snd_wnd, rmt)
-		if k.nocwnd == 0 {
+		if k.nocwnd == 0 && exact {
 			lim = min(lim, max(cw, 1))
 		}
 		for _, sn := range s.newSn {
 			if outstanding := sn - una; int32(outstanding) < 0 || outstanding >= lim {
 				s.bad("C04:new-segment-beyond-effective-window", "end %d put never-sent sn=%d on the wire with %d already outstanding; min(snd_wnd=%d, rmt_wnd=%d, cwnd=%d%s) (%s)",
-					en.id, sn-s.cfg.Sn0, outstanding, k.snd_wnd, rmt, cw, map[bool]string{true: "", false: " upper bound"}[exact], what)
+					en.id, sn-s.cfg.Sn0, outstanding, k.snd_wnd, rmt, cw, map[bool]string{true: "", false: " (not applied)"}[exact], what)
 			}
 		}
 		if en.freeze && una == en.frzUna {
@@ -633,11 +658,14 @@ func (s *vfSim) run() {
 // outcome is a short label of what happened.
 func (s *vfSim) outcome() string {
 	var f bytes.Buffer
-	for _, x := range s.fates {
+	for i, x := range s.fates {
+		if i < s.cfg.FateFrom {
+			continue
+		}
 		if len(f.Bytes()) >= s.cfg.K {
 			break
 		}
-		f.WriteByte("-xdrl"[x])
+		f.WriteByte("-xdrlt"[x])
 	}
 	retr := 0
 	for i := 0; i < 2; i++ {
